@@ -279,6 +279,35 @@ fn scripted(seed: u64, jitter: u64, rep: &Report) -> Result<(), String> {
             // X's connection state after the timeout error is not of interest any more
         }
     }
+    // ---- Phase L: a client vanishes (socket closed, no Terminate) idle inside an open transaction;
+    // while the pooler rolls the server back (round trip made slow by the mock) the vanished
+    // client's key must already be useless
+    for how in ["fin", "rst", "terminate"] {
+        let mut w = conn(&cell, "W")?;
+        let (wp, wk) = (w.pid, w.key);
+        let _ = w.query(&format!("BEGIN {}", tag("W", &format!("W.l.{}", how), "")), 5000).map_err(|(m, e)| format!("W begin: {:?} {}", e, summarize(&m)))?;
+        cell.mocks[0].ctl.slow_ms.store(150, Ordering::SeqCst);
+        let n0 = cell.log.len();
+        match how {
+            "fin" => w.close_fin(),
+            "rst" => w.close_rst(),
+            _ => w.terminate(),
+        }
+        sleep_ms(25 + rng.below(40));
+        send_cancel(&addr, wp, wk).map_err(|e| e.to_string())?;
+        rep.count("cancels_during_rollback_of_vanished_client", 1);
+        sleep_ms(350);
+        cell.mocks[0].ctl.slow_ms.store(0, Ordering::SeqCst);
+        let cs = cancels_since(&cell, n0);
+        if !cs.is_empty() {
+            rep.violation(
+                &format!("C10|server_contacted_for_vanished_client_during_its_rollback|left_by={}", how),
+                &format!("W left ({}) inside an open transaction; a cancel with W's key sent afterwards reached the server ({} CancelRequests) while the pooler was rolling that server back", how, cs.len()),
+                wit(&mut cell),
+            );
+        }
+        sleep_ms(50);
+    }
     x.terminate();
     y.terminate();
     Ok(())
